@@ -21,8 +21,8 @@ RULE = ('cases = (raw) generated FileStorage programs over plain and resolvable 
 ASSUMPTIONS = ['when the current state and the undone state are value-equal but stored in different records the implementation '
                'may copy or refuse; both are accepted only for records without data (deletions)',
                'resolved records are compared by parsed state (class, dict), their bytes are then adopted by the model']
-BUDGET = {'quick': {'examples': 6000, 'workers': 8},
-          'thorough': {'examples': 80000, 'workers': 16}}
+BUDGET = {'quick': {'examples': 14000, 'workers': 8},
+          'thorough': {'examples': 120000, 'workers': 16}}
 
 
 def strategy(tier):
